@@ -164,6 +164,7 @@ _NP_FUNCS = {
     "atleast_1d": lambda a: np.atleast_1d(_arr(a)),
     "ix_": lambda *a: np.ix_(*[np.asarray(x, dtype=int) for x in a]),
     "sqrt": lambda a: _opaque("sqrt", a),
+    "exp": lambda a: _opaque("exp", a),
     "abs": lambda a: _opaque("abs", a),
     "absolute": lambda a: _opaque("abs", a),
     "einsum": lambda spec, *ops: _einsum(spec, *[_arr(o) for o in ops]),
